@@ -252,6 +252,8 @@ def fake_case(col, item):
             continue
         col.count(1)
         judge(col, case, row, conf, res, "fake-processes")
+        if res["expected"]:
+            col.nontrivial.add(("fake", json.dumps(case["P"]), json.dumps(case["S"]), json.dumps(row[:4]), seed))
         col.extra.setdefault("_traces", []).append({"ev": res["events"], "expected": res["expected"], "got": res["got"],
                                                     "abstract": {"P": case["P"], "S": case["S"], "row": row[:4]}, "concrete": conf})
 
@@ -278,15 +280,15 @@ def run(ctx):
         never = [a for a in ("PollAlive", "Get", "EndDrain") if cov.get(a, (0, 0))[1] == 0]
         if never:
             raise MachineryError("ResultQueueDesign actions never taken: %s" % never)
-    cases = c04.gen_cases(ctx, 5, 3, 5 if quick else 14, ctx.seed + 5, ks="{0,1,2}")
+    cases = c04.gen_cases(ctx, 5, 3, 6 if quick else 14, ctx.seed + 5, ks="{0,1,2}")
     cases = [c for c in cases if any(r[0] >= 1 and r[4] for r in c["rows"])]
     real = cases[:10] if quick else cases[:120]
     pmap(ctx, real_case, [(c, n, ctx.tier) for n, c in enumerate(real)], procs=1)      # real child processes: run from the main process
     pmap(ctx, special_cases, [0], procs=1)
     from vlib.par import Collector, merge
     col = Collector()
-    for n, c in enumerate(cases[:16] if quick else cases[:150]):
-        fake_case(col, (c, n, list(range(3 if quick else 8))))
+    for n, c in enumerate(cases[:24] if quick else cases[:150]):
+        fake_case(col, (c, n, list(range(5 if quick else 8))))
     traces = col.extra.pop("_traces", [])
     merge(ctx, col)
     tdir = ctx.tmpdir()
